@@ -165,8 +165,8 @@ PROFILES = {
                   misuse=0, alias=0, block=0, measure_reg=0),
     "qasm": dict(gate=10, measure=3, reset=2, new=2, destroy=2, ifbit=2, loop=2, decl=2,
                  misuse=0, alias=0, block=1, measure_reg=1),
-    "flags": dict(gate=8, measure=6, reset=3, new=1, destroy=1, ifbit=0, loop=1, decl=1,
-                  misuse=6, alias=0, block=0, measure_reg=2),
+    "flags": dict(gate=8, measure=6, reset=4, new=1, destroy=1, ifbit=0, loop=1, decl=1,
+                  misuse=3, alias=0, block=0, measure_reg=2),
     "tracked": dict(gate=6, measure=6, reset=2, new=3, destroy=2, ifbit=1, loop=3, decl=2,
                     misuse=0, alias=0, block=4, measure_reg=2),
 }
@@ -239,7 +239,7 @@ class Gen:
 
     def pick_q(self, k=1, allow_measured=False):
         refs = self.qrefs()
-        if not (allow_measured or self.w["misuse"]):
+        if not (allow_measured or getattr(self, "misusing", False)):
             refs = [q for q in refs if self.key_of(q) not in self.pm]
         # distinct underlying qubits
         seen, uniq = set(), []
@@ -353,7 +353,7 @@ class Gen:
             keys = [("r", name, i) for i in range(n)]
         else:
             keys = [("o", name, "qs", 0), ("o", name, "qs", 1)]
-        if not self.w["misuse"] and any(k in self.pm for k in keys):
+        if not getattr(self, "misusing", False) and any(k in self.pm for k in keys):
             return None
         self.pm.update(keys)
         return dict(k="measure_reg", kind=kind, name=name)
@@ -400,8 +400,9 @@ class Gen:
             body.append(dict(k="decl", name=name, n=None, tracked=True, in_loop=True))
             body.append(dict(k="gate", g="h", qs=[("v", name)], theta=None, via="direct"))
             body.append(dict(k="measure", q=("v", name), form="stmt", bit=None))
+            self.pm.add(("v", name))
         regs = [(nm, sz) for nm, sz in self.visible("regs") if sz >= n and
-                (self.w["misuse"] or not any(("r", nm, i) in self.pm for i in range(sz)))]
+                (not any(("r", nm, i) in self.pm for i in range(sz)))]
         if regs and self.r.random() < 0.7:
             nm, _ = self.r.choice(regs)
             g = self.r.choice(["h", "x", "ry"])
@@ -430,7 +431,11 @@ class Gen:
 
     def stmt_misuse(self):
         # an operation on a qubit; whether it is legal is decided by the model at run time
-        return self.r.choice([self.stmt_gate, self.stmt_measure, self.stmt_measure])()
+        self.misusing = True
+        try:
+            return self.r.choice([self.stmt_gate, self.stmt_measure, self.stmt_measure])()
+        finally:
+            self.misusing = False
 
     def body(self, count, depth, inner=False):
         out = []
